@@ -527,51 +527,85 @@ def rewind(ctx):
     sk = [c for c in calls_in(f) if call_name(c) == "self._fp.seek"]
     ctx.check(bool(sk) and const_value(sk[0].args[0]) == 0 and (len(sk[0].args) == 1 or const_value(sk[0].args[1]) == 0), sk[0] if sk else f, "_rewind seeks the underlying file to its start",
               "_rewind does not seek the underlying file to 0", key=None if sk else "%s::%s._rewind::fp.seek" % (CP, Z))
+    seek_table(ctx)
+
+
+def seek_table(ctx):
+    """seek(offset, whence) decided over a table of concrete cases: the function's own statements are folded (sa/table.py:
+    tests, assignments to locals, arguments of the two calls that matter) - whatever the locals are called and however
+    the branches are arranged. For each row: absolute target = {0: offset, 1: pos + offset, 2: size + offset};
+    target < pos  =>  _rewind() is called and target bytes are skipped;  otherwise no rewind and target - pos bytes are
+    skipped; the skipping is _read_block(n, return_data=False); the new position is returned; other whence => ValueError."""
+    from ..table import trace, Unknown
     s = ZF(ctx, "seek")
     gs = cfg_of(s)
-    rw = [c for c in calls_in(s) if call_name(c) == "self._rewind"]
-    if not rw:
-        ctx.bad(s, "seek never rewinds: a backward seek cannot be honoured (the decompressor only moves forward)", key="%s::%s.seek::rewind" % (CP, Z))
-        return
-    for c in rw:
-        conds = gs.conditions_at(gs.nodes_of(c))
-        ctx.check(any(unparse(t) in ("offset < self._pos", "self._pos > offset") and pol for (_, t, pol) in conds), c, "seek rewinds iff the absolute target is before the current position")
-    sub = [a for a in nodes_of_type(s, ast.AugAssign) if dotted(a.target) == "offset" and isinstance(a.op, ast.Sub)]
-    ok = len(sub) == 1 and dotted(sub[0].value) == "self._pos" and any(unparse(t) in ("offset < self._pos", "self._pos > offset") and not pol for (_, t, pol) in gs.conditions_at(gs.nodes_of(sub[0])))
-    ctx.check(ok, sub[0] if sub else s, "otherwise the distance to skip is target - position")
-    rb = [c for c in calls_in(s) if call_name(c) == "self._read_block"]
-    ctx.check(len(rb) == 1 and dotted(rb[0].args[0]) == "offset" and is_const(kwarg(rb[0], "return_data", 1), False), rb[0] if rb else s, "the distance is skipped by reading and discarding")
-    if rb:
-        ctx.check(gs.every_path_to(gs.nodes_of(rb[0]), gs.nodes_of_all(rw) | gs.nodes_of_all(sub)), rb[0], "after either rewinding or subtracting")
+    params = [a.arg for a in s.args.args]
+    ctx.need(len(params) >= 3, "seek(self, offset, whence) signature not recognised")
+    off_p, wh_p = params[1], params[2]
+    rows = 0
+    consts = {}
+    for st in ctx.repo.mod(CP).tree.body:
+        if isinstance(st, ast.Assign) and len(st.targets) == 1 and isinstance(st.targets[0], ast.Name) and isinstance(st.value, ast.Constant) and isinstance(st.value.value, (int, float)):
+            consts[st.targets[0].id] = st.value.value
+    for whence_v in (0, 1, 2, 3):
+        for pos, size, off in ((40, 90, 5), (40, 90, 70), (0, 10, 0), (40, 90, -15), (20000, 50000, 15000), (20000, 50000, 19999)):
+            env = dict(consts)
+            env.update({wh_p: whence_v, off_p: off, "self._pos": pos, "self._size": size, "self._mode": "_MODE_READ", "io.SEEK_SET": 0, "io.SEEK_CUR": 1, "io.SEEK_END": 2,
+                   "SEEK_SET": 0, "SEEK_CUR": 1, "SEEK_END": 2})
+            try:
+                kind, val, visited, calls = trace(gs, env, call_args=("self._rewind", "self._read_block", "self._read_all"))
+            except Unknown as e:
+                raise Undecidable("seek: not understood under whence=%s (%s)" % (whence_v, e))
+            rows += 1
+            if whence_v == 3:
+                ok = kind == "raise" and isinstance(val, ast.Raise) and call_name(val.exc) == "ValueError"
+                if not ok:
+                    ctx.bad(s, "an invalid whence (%s) does not raise ValueError" % whence_v, key="%s::%s.seek::invalid whence" % (CP, Z))
+                    return
+                continue
+            target = {0: off, 1: pos + off, 2: size + off}[whence_v]
+            if target < 0:
+                continue    # negative absolute targets: behaviour of the plain stream is an error / clamp; not decided here
+            rew = [c for c in calls if c[0] == "self._rewind"]
+            rb = [c for c in calls if c[0] == "self._read_block"]
+            want_rewind = target < pos
+            want_skip = target if want_rewind else target - pos
+            what = "whence=%d offset=%d at position %d (size %d): target %d" % (whence_v, off, pos, size, target)
+            if bool(rew) != want_rewind:
+                ctx.bad(rew[0][2] if rew else s, "%s - seek %s" % (what, "does not rewind although the target is before the current position (the decompressor only moves forward)" if want_rewind
+                                                                 else "rewinds although the target is not before the current position"), key="%s::%s.seek::rewind iff target < position" % (CP, Z))
+                return
+            if len(rb) != 1 or not rb[0][1] or rb[0][1][0] is Unknown or rb[0][1][0] != want_skip:
+                ctx.bad(rb[0][2] if rb else s, "%s - seek skips %s bytes, expected %d" % (what, (rb[0][1][0] if rb and rb[0][1] and rb[0][1][0] is not Unknown else "an unknown number of") if rb else "no", want_skip),
+                        key="%s::%s.seek::distance skipped" % (CP, Z))
+                return
+            c = rb[0][2]
+            if not is_const(kwarg(c, "return_data", 1), False):
+                ctx.bad(c, "the skipped bytes are not discarded (return_data is not False)")
+                return
+            if rew and not gs.path_exists(gs.nodes_of(rew[0][2]), gs.nodes_of(c)):
+                ctx.bad(c, "%s - the skipping read does not follow the rewind" % what)
+                return
+            if kind != "return":
+                ctx.bad(s, "%s - seek does not return" % what)
+                return
+    ctx.ok(s, "seek: target per whence, rewind iff target < position, distance skipped by a discarding read - %d rows of the case table" % rows)
     ctx.check(any(dotted(r.value) == "self._pos" for r in nodes_of_type(s, ast.Return)), s, "seek returns the new position")
+    # whence 2 with an unknown size: the size is found by reading to the end before it is used
+    try:
+        kind, val, visited, calls = trace(gs, {wh_p: 2, off_p: -5, "self._pos": 40, "self._size": -1, "self._mode": "_MODE_READ", "io.SEEK_END": 2, "SEEK_END": 2},
+                                          call_args=("self._read_all", "self._read_block", "self._rewind"))
+    except Unknown:
+        kind, calls = None, []
+    ra = [c for c in calls if c[0] == "self._read_all"]
+    ctx.check(bool(ra) and is_const(kwarg(ra[0][2], "return_data", 0), False) and (not [c for c in calls if c[0] == "self._read_block"] or
+              gs.path_exists(gs.nodes_of(ra[0][2]), gs.nodes_of([c for c in calls if c[0] == "self._read_block"][0][2]))),
+              ra[0][2] if ra else s, "whence 2 with an unknown size reads to the end (discarding) before the size is used", "whence 2 does not determine the size first")
 
 
 def whence(ctx):
-    s = ZF(ctx, "seek")
-    g = cfg_of(s)
-    handled = {}
-    for n in nodes_of_type(s, ast.If):
-        t = n.test
-        if isinstance(t, ast.Compare) and dotted(t.left) == "whence" and isinstance(t.ops[0], ast.Eq):
-            handled[const_value(t.comparators[0])] = n
-    ctx.check(set(handled) == {0, 1, 2}, s, "whence 0, 1 and 2 are handled", "whence values handled: %s" % sorted(handled))
-    chain_end = handled.get(2)
-    if chain_end is not None:
-        ctx.check(any(isinstance(x, ast.Raise) and call_name(x.exc) == "ValueError" for x in chain_end.orelse), chain_end, "any other whence raises ValueError")
-    if 0 in handled:
-        ctx.check(not any("offset" in stores_to(x) for s_ in handled[0].body for x in walk_local(s_) if isinstance(x, (ast.Assign, ast.AugAssign))), handled[0], "whence 0: absolute offset unchanged")
-    if 1 in handled:
-        st = [a for a in handled[1].body if isinstance(a, ast.Assign) and "offset" in stores_to(a)]
-        ctx.check(bool(st) and unparse(st[0].value) in ("self._pos + offset", "offset + self._pos"), st[0] if st else handled[1], "whence 1: target = position + offset", "whence 1 computes %s" % (unparse(st[0].value) if st else None))
-    if 2 in handled:
-        b = handled[2].body
-        st = [a for a in b if isinstance(a, ast.Assign) and "offset" in stores_to(a)]
-        ctx.check(bool(st) and unparse(st[0].value) in ("self._size + offset", "offset + self._size"), st[0] if st else handled[2], "whence 2: target = size + offset", "whence 2 computes %s" % (unparse(st[0].value) if st else None))
-        ra = [n for n in b if isinstance(n, ast.If) and unparse(n.test) == "self._size < 0"]
-        ok = bool(ra) and any(call_name(c) == "self._read_all" and is_const(kwarg(c, "return_data", 0), False) for c in calls_in(ra[0]))
-        ctx.check(ok, ra[0] if ra else handled[2], "the size is found by reading to the end when still unknown", "whence 2 does not determine the size first")
-        if ok and st:
-            ctx.check(b.index(ra[0]) < b.index(st[0]), st[0], "before it is used")
+    # (decided by the case table of seek_table: kept as a clause name for the evidence and the seeds' records)
+    seek_table(ctx)
 
 
 def _mode_test_value(t, mode):
